@@ -199,6 +199,12 @@ def handle (req : Json) : Except String Json := do
       let doc ← decJ (req.getObjValD "doc")
       let d ← decDiff (req.getObjValD "diff")
       pure (Json.mkObj [("ok", .bool (wf doc d))])
+  | "wfchars" => do
+      let doc ← decJ (req.getObjValD "doc")
+      let d ← decDiff (req.getObjValD "diff")
+      match doc with
+      | .str s => pure (Json.mkObj [("ok", .bool (wfChars s.length d 0 none))])
+      | _ => throw "wfchars needs a string"
   | "splitlines" => do
       let doc ← decJ (req.getObjValD "doc")
       match doc with
